@@ -1,4 +1,22 @@
 fn main() {
+    // `vh-selftest --spin`: a section in which one case never finishes (the engine's monitor must
+    // end the run with a VIOLATION line; VH_SPIN_CPU_S shortens the wait)
+    if std::env::args().any(|a| a == "--spin") {
+        let mut ck = vh_engine::Check::from_args("C00", "exploration");
+        ck.run(
+            vh_engine::Section::enumerate("spin-selftest", "cases 0..64, case 40 spins".to_string(), || Box::new(0u32..64), |c: &u32| {
+                if *c == 40 {
+                    let mut x = 0u64;
+                    loop {
+                        x = std::hint::black_box(x.wrapping_add(1));
+                    }
+                }
+                vh_engine::Verdict::pass()
+            })
+            .shards(4),
+        );
+        ck.finish();
+    }
     let bad = vh_engine::refimpl::self_test();
     if bad.is_empty() {
         println!("reference self-test: ok");
